@@ -82,7 +82,7 @@ Theorem vec_growth_accounted : forall (cap : N) (m : mem) (v : vecst) (add : N),
   Inv m -> vcharged v = vec_bytes v -> vlen v <= vcap v ->
   let '(r, m', v', t) := vec_grow cap m v add in
   (Inv m' /\ maxb m' = maxb m /\ (r = ROk \/ m' = m)) /\ check_first t = true /\
-  vcharged v' = vec_bytes v' /\ vlen v' = vlen v /\ vcap v <= vcap v' /\
+  vcharged v' = vec_bytes v' /\ vlen v' = vlen v /\ velem v' = velem v /\ vcap v <= vcap v' /\
   held m' + vec_bytes v = held m + vec_bytes v' /\
   (r = ROk -> vlen v + add <= vcap v') /\ (r <> ROk -> v' = v /\ m' = m).
 Proof. exact vec_grow_step. Qed.
@@ -101,8 +101,8 @@ Theorem string_repeat_checks_first : forall (cap : N) (m : mem) (sl : N) (n : Z)
   (Inv m' /\ maxb m' = maxb m /\ (r = ROk \/ m' = m)) /\
   ((0 < n)%Z -> check_first t = true /\ (r = ROom -> host_total t = 0)).
 Proof. exact repeat_step. Qed.
-Theorem string_pad_checks_first : forall (cap : N) (m : mem) (sl : N) (w : Z), Inv m ->
-  let '(r, m', t) := op_pad cap m sl w in
+Theorem string_pad_checks_first : forall (cap : N) (m : mem) (schars sbytes pad_bytes : N) (w : Z), Inv m ->
+  let '(r, m', t) := op_pad cap m schars sbytes pad_bytes w in
   (Inv m' /\ maxb m' = maxb m /\ (r = ROk \/ m' = m)) /\ check_first t = true /\ (r = ROom -> host_total t = 0).
 Proof. exact pad_step. Qed.
 
@@ -113,15 +113,16 @@ Example former_counterexamples_now_refused :
   (op_array w_cap 8 w_mem 200000 = (ROom, w_mem, [ECheck 1600024 false]) /\
    op_array w_cap 8 w_mem (-1) = (RTypeErr, w_mem, []) /\
    op_array w_cap 8 w_mem 1000000000000 = (ROom, w_mem, [ECheck 8000000000024 false])) /\
-  ((let '(r, m', v') := push_many 2000 w_cap w_mem (mkVec 1 1 40) in
+  ((let '(r, m', v') := push_many 2000 w_cap w_mem (mkVec 1 1 40 8) in
     r = ROk /\ vlen v' = 2001 /\ vcap v' = 2048 /\ vcharged v' = vec_bytes v' /\ held m' = held w_mem + 2047 * 8) /\
-   (let '(r, m', v', _) := op_vec_reserve w_cap w_mem (mkVec 1 1 40) 131072 in r = ROom /\ m' = w_mem) /\
-   fst (fst (fst (op_vec_reserve w_cap w_mem (mkVec 1 1 40) (-1)))) = RTypeErr /\
-   fst (fst (fst (op_vec_reserve w_cap w_mem (mkVec 1 1 40) 1000000000000))) = ROom) /\
+   (let '(r, m', v', _) := op_vec_reserve w_cap w_mem (mkVec 1 1 40 8) 131072 in r = ROom /\ m' = w_mem) /\
+   fst (fst (fst (op_vec_reserve w_cap w_mem (mkVec 1 1 40 8) (-1)))) = RTypeErr /\
+   fst (fst (fst (op_vec_reserve w_cap w_mem (mkVec 1 1 40 8) 1000000000000))) = ROom) /\
   (op_repeat w_cap w_mem 16 100000 = (ROom, w_mem, [ECheck 1600024 false]) /\
    fst (fst (op_repeat w_cap w_mem 16 100000000000)) = ROom /\
-   op_pad w_cap w_mem 16 (-1) = (ROk, w_mem, []) /\
-   op_pad w_cap w_mem 16 100000000000000 = (ROom, w_mem, [ECheck 100000000000024 false])).
+   op_pad w_cap w_mem 16 16 1 (-1) = (ROk, w_mem, []) /\
+   op_pad w_cap w_mem 16 16 1 100000000000000 = (ROom, w_mem, [ECheck 100000000000024 false]) /\
+   op_pad w_cap w_mem 16 16 3 400016 = (ROom, w_mem, [ECheck 1200040 false])).
 Proof. exact (conj repaired_array_witness (conj repaired_vec_witness repaired_string_witness)). Qed.
 
 (* non-vacuity: a history that fills the budget exactly and is then refused *)
